@@ -230,7 +230,16 @@ Proof.
   apply no_panic_bind; [apply no_panic_get_expr; auto|intros e0 He0].
   pose proof (get_expr_tsafe _ _ _ HJ He0) as Hts.
   pose proof (Hpre _ (get_expr_ty _ _ _ He0)) as Hp. unfold unary_pre in Hp.
-  destruct (type_of e0) as [w|] eqn:Et; [|discriminate].
+  destruct (type_of e0) as [w|iw0 dw0] eqn:Et.
+  2: { (* an array operand: only an extension by zero bits, which returns the operand *)
+    apply rc_safe_finish.
+    assert (Hext : forall mk, rc_safe (_ <- require toks 5;; by_ <- of_opt (parse_width (tokn toks 4));;
+                                       r <- b_ext true mk e0 by_;; POk (r, 5%nat))).
+    { intros mk. apply rc_safe_bind; [apply no_panic_require|intros u1 _].
+      apply rc_safe_bind; [apply no_panic_of_opt|intros by_ Hby]. apply of_opt_ok in Hby.
+      destruct u; try discriminate; rewrite Hby in Hp; apply N.eqb_eq in Hp; subst by_;
+        unfold b_ext; cbn [N.eqb pbind]; apply rc_safe_ok; auto. }
+    destruct u; try discriminate; apply Hext. }
   apply rc_safe_finish.
   destruct u.
   - rewrite (b_not_eq _ _ Et). cbn [pbind]. apply rc_safe_ok, tcheck_plain. reflexivity.
